@@ -593,15 +593,45 @@ class Inliner:
                 tmp = p if (p not in caller_names) else f"{p}_inl{self.uid}"
                 prelude.append(ast.Assign(targets=[ast.Name(id=tmp, ctx=ast.Store())], value=a, lineno=call.lineno))
                 mapping[p] = tmp
-        # the helper's locals keep their names unless they clash with the caller's
+        # the helper's locals keep their names unless that could disturb the caller: a caller's variable of the same name may be
+        # overwritten only if the caller never reads it again after the call (and the call is not inside a loop that reads it)
         locals_ = {n.id for n in ast.walk(fn) if isinstance(n, ast.Name) and isinstance(n.ctx, ast.Store)} - set(params)
         for v in locals_:
-            if v in caller_names:
+            if v in caller_names and not self._dead_after(v, call):
                 self.uid += 1
                 mapping[v] = f"{v}_inl{self.uid}"
         return prelude, mapping
 
+    def _dead_after(self, name, call) -> bool:
+        caller = self._caller
+        if any(a.arg == name for a in ast.walk(caller) if isinstance(a, ast.arg)):
+            return False
+        line = call.lineno
+        parents = {}
+        for p in ast.walk(caller):
+            for c in ast.iter_child_nodes(p):
+                parents[c] = p
+        n = call
+        loops = []
+        while n in parents:
+            n = parents[n]
+            if isinstance(n, (ast.For, ast.AsyncFor, ast.While)):
+                loops.append(n)
+            if isinstance(n, _FUNCS) and n is not caller:
+                return False  # call inside a nested function: closures could read the name any time
+        for x in ast.walk(caller):
+            if isinstance(x, ast.Name) and x.id == name and isinstance(x.ctx, ast.Load):
+                if getattr(x, "lineno", 0) > line:
+                    # a later read must be preceded by its own store: accept only loop targets / assignments that rebind first
+                    later_stores = [y for y in ast.walk(caller) if isinstance(y, ast.Name) and y.id == name and isinstance(y.ctx, ast.Store) and line < getattr(y, "lineno", 0) <= x.lineno]
+                    if not later_stores:
+                        return False
+                if any(x in set(ast.walk(lp)) for lp in loops) and getattr(x, "lineno", 0) <= line:
+                    return False
+        return True
+
     def _inline_in_function(self, caller, cls_prefix, scope_prefix, hs):
+        self._caller = caller
         caller_names = {n.id for n in ast.walk(caller) if isinstance(n, ast.Name)} | {a.arg for a in ast.walk(caller) if isinstance(a, ast.arg)}
 
         def expand(stmt):
